@@ -52,6 +52,7 @@ register("EBR-FINALIZE-HANDOFF", rules_ebr.rule_finalize_handoff)
 register("EBR-NO-FORGET", rules_ebr.rule_no_forget)
 register("EBR-DEFERRED-INLINE", rules_ebr.rule_deferred_inline)
 register("EBR-TLS", rules_ebr.rule_tls)
+register("EBR-LIVE-PRECOND", rules_ebr.rule_live_precond)
 register("EBR-LIST", rules_ebr.rule_list)
 register("EBR-QUEUE", rules_ebr.rule_queue)
 register("EBR-QUEUE-DROP", rules_ebr.rule_queue_drop)
@@ -91,7 +92,7 @@ prop("C15", "other",
      ["EBR-NO-FORGET", "EBR-FINALIZE-HANDOFF", "EBR-DEFERRED-INLINE", "EBR-QUEUE-DROP", "EBR-QUEUE"],
      ["'eventually' (liveness)"], assumptions=TRUST)
 prop("C16", "other",
-     ["EBR-GUARD-COUNT", "EBR-REACTIVATE", "EBR-EPOCH-WRITERS", "EBR-COLLECT-OUTERMOST", "TY-SIG"],
+     ["EBR-GUARD-COUNT", "EBR-REACTIVATE", "EBR-EPOCH-WRITERS", "EBR-COLLECT-OUTERMOST", "TY-SIG", "EBR-LIVE-PRECOND"],
      ["re-entrancy from destructors running during collection beyond EBR-COLLECT-OUTERMOST"],
      witnesses=["TY-REACTIVATE-MUT", "TY-GUARD-NOT-SEND"], assumptions=TRUST)
 prop("C17", "other",
@@ -104,7 +105,7 @@ prop("C19", "proof",
      ["CMP-DELEGATE"],
      [], assumptions=["std's PartialEq/PartialOrd/Ord/Hash for Option<&T> are lawful given T's", "rustc callee resolution"])
 prop("C20", "other",
-     ["EBR-TLS", "EBR-FINALIZE-HANDOFF", "EBR-NO-FORGET"],
+     ["EBR-TLS", "EBR-FINALIZE-HANDOFF", "EBR-NO-FORGET", "EBR-LIVE-PRECOND"],
      ["deadlock freedom and every TLS destruction order"], assumptions=TRUST)
 
 # ------------------------------------------------------------------------------------------
